@@ -1,0 +1,107 @@
+//! Verification hooks: additive wrappers that expose crate-private items to an external test
+//! harness. Compiled only with the `verif` feature; nothing in the program uses them.
+
+use anchor_lang::prelude::*;
+
+use crate::{
+    events::EventEmitter,
+    states::{
+        PriceFeed, PriceFeedPrice,
+        gt::GtState,
+        market::revertible::market::RevertibleMarket,
+        Market, PriceProviderKind, Store, UserHeader,
+    },
+};
+
+/// Mutable access to the GT state of a store.
+pub fn gt_mut(store: &mut Store) -> &mut GtState {
+    store.gt_mut()
+}
+
+/// `GtState::init`.
+pub fn gt_init(
+    store: &mut Store,
+    decimals: u8,
+    initial_minting_cost: u128,
+    grow_factor: u128,
+    grow_step: u64,
+    ranks: &[u64],
+) -> Result<()> {
+    store
+        .gt_mut()
+        .init(decimals, initial_minting_cost, grow_factor, grow_step, ranks)
+}
+
+/// `GtState::set_order_fee_discount_factors`.
+pub fn gt_set_order_fee_discount_factors(store: &mut Store, factors: &[u128]) -> Result<()> {
+    store.gt_mut().set_order_fee_discount_factors(factors)
+}
+
+/// `GtState::set_referral_reward_factors`.
+pub fn gt_set_referral_reward_factors(store: &mut Store, factors: &[u128]) -> Result<()> {
+    store.gt_mut().set_referral_reward_factors(factors)
+}
+
+/// `GtState::mint_to`.
+pub fn gt_mint_to(store: &mut Store, user: &mut UserHeader, amount: u64) -> Result<()> {
+    store.gt_mut().mint_to(user, amount)
+}
+
+/// `GtState::unchecked_burn_from`.
+pub fn gt_burn_from(store: &mut Store, user: &mut UserHeader, amount: u64) -> Result<()> {
+    store.gt_mut().unchecked_burn_from(user, amount)
+}
+
+/// `GtState::get_mint_amount`.
+pub fn gt_get_mint_amount(store: &Store, size_in_value: u128) -> Result<(u64, u128, u128)> {
+    store.gt().get_mint_amount(size_in_value)
+}
+
+/// `GtState::ranks`.
+pub fn gt_ranks(store: &Store) -> Vec<u64> {
+    store.gt().ranks().to_vec()
+}
+
+/// `GtState::order_fee_discount_factor`.
+pub fn gt_order_fee_discount_factor(store: &Store, rank: u8) -> Result<u128> {
+    store.gt().order_fee_discount_factor(rank)
+}
+
+/// `UserHeader::init`.
+pub fn user_init(user: &mut UserHeader, store: &Pubkey, owner: &Pubkey, bump: u8) -> Result<()> {
+    user.init(store, owner, bump)
+}
+
+/// `PriceFeed::init`.
+#[allow(clippy::too_many_arguments)]
+pub fn price_feed_init(
+    feed: &mut PriceFeed,
+    bump: u8,
+    index: u16,
+    provider: PriceProviderKind,
+    store: &Pubkey,
+    authority: &Pubkey,
+    token: &Pubkey,
+    feed_id: &Pubkey,
+) -> Result<()> {
+    feed.init(bump, index, provider, store, authority, token, feed_id)
+}
+
+/// `PriceFeed::update`.
+pub fn price_feed_update(
+    feed: &mut PriceFeed,
+    price: &PriceFeedPrice,
+    max_future_excess: u64,
+    idempotent: bool,
+) -> Result<bool> {
+    feed.update(price, max_future_excess, idempotent)
+}
+
+/// `RevertibleMarket::new` without virtual inventories.
+pub fn new_revertible_market<'a, 'info>(
+    market: &'a AccountLoader<'info, Market>,
+    event_authority: &'a AccountInfo<'info>,
+    bump: u8,
+) -> Result<RevertibleMarket<'a, 'info>> {
+    RevertibleMarket::new(market, None, EventEmitter::new(event_authority, bump))
+}
